@@ -40,7 +40,10 @@ def attr_case(draw):
           "schedule": [list(x) for x in draw(st.one_of(schedule_st, fine))],
           # the statements live in a function that refers to more than 128 other names first (so
           # that the attribute's name needs an extended argument in the bytecode)
-          "big": draw(st.integers(0, 3)) == 0}
+          "big": draw(st.integers(0, 3)) == 0,
+          # how the class declares the attribute: in _attributes only, with a class-level default of
+          # the same name as well, or by inheriting the declaration from its base class
+          "klass": draw(st.sampled_from(["plain", "plain", "default", "child"]))}
 
 
 def serial_results(threads, initial):
@@ -72,7 +75,7 @@ class C27(Prop):
           "o.x *= c, read o.x} on one thread-safe attribute (the augmented assignments also written as "
           "objs[0].x += c, same(o).x += c, 'if True: o.x += c', 'o . x += c', 'if o.x > -10**9: o.x += c' and "
           "'o.x += c; out.append(o.x)' and the statement split over two lines with a backslash or parentheses, and right-hand sides that read the attribute again on the same line, on the next line or inside a helper written elsewhere'; a quarter of the programs put the statements in functions that refer to 140 "
-          "other names first), written to a real source file (miros "
+          "other names first), written to a real source file; the class declares the attribute in _attributes only, with a class-level default of the same name as well, or inherits the declaration (miros "
           "inspects the caller's source line); pre-emption at every line of "
           "miros/thread_safe_attributes.py and of the generated file, schedules with run lengths "
           "from 1 (fine races) to 200. Oracle: no thread dies with an exception, no deadlock (exact "
@@ -112,8 +115,12 @@ class C27(Prop):
     exec(compile(src, path, "exec"), ns)
     info = {"between": 0}
     try:
-      klass = type("VfShared", (miros.ThreadSafeAttributes,), {"_attributes": ["x"]})
-      desc = klass.__dict__["x"]
+      how = case.get("klass", "plain")
+      klass = type("VfShared", (miros.ThreadSafeAttributes,),
+                   {"_attributes": ["x"], "x": 0} if how == "default" else {"_attributes": ["x"]})
+      if how == "child":
+        klass = type("VfSharedChild", (klass,), {"note": "inherits the declaration"})
+      desc = next((k.__dict__["x"] for k in klass.__mro__ if "x" in k.__dict__), None)
 
       def body(s):
         o = klass()
